@@ -470,6 +470,27 @@ class CallMixin:
         f = e.func
         if isinstance(f, ast.Name) and f.id == "cast" and len(e.args) == 2 and f.id not in st.store:
             return self.ev(e.args[1], st)  # typing.cast: identity on the second argument
+        # isinstance(x, nodes.K) / nodes.K1 | nodes.K2 / (nodes.K1, nodes.K2) on the docutils node MODEL: the `kind` field
+        if isinstance(f, ast.Name) and f.id == "isinstance" and len(e.args) == 2 and "isinstance" not in st.store:
+            kinds = _node_kinds(e.args[1])
+            if kinds:
+                out = []
+                for s2, v in self.ev(e.args[0], st):
+                    if isinstance(v, Raised):
+                        out.append((s2, v))
+                        continue
+                    inner = v.t.inner if isinstance(v.t, TOpt) else v.t
+                    fd = self.field_decl(inner.cls, "kind") if isinstance(inner, TRef) else None
+                    if fd is None:
+                        raise EngineError(f"isinstance against node classes on {v.t!r}")
+                    obj = sym.opt_val(v) if isinstance(v.t, TOpt) else v
+                    kv = s2.load(obj.z, fd[0], fd[1])
+                    cond = z3.Or(*[self.eq(kv, mk_const(k)) for k in kinds])
+                    if isinstance(v.t, TOpt):
+                        cond = z3.And(z3.Not(sym.opt_is_none(v)), cond)
+                    self.assumed_used.add("isinstance(n, nodes.K) <=> n.kind == 'K' for the concrete docutils node classes (node model)")
+                    out.append((s2, SV(BOOL, cond)))
+                return out
         # spec-only forms
         if isinstance(f, ast.Name) and st.spec:
             r = self.spec_form(f.id, e, st)
@@ -785,6 +806,17 @@ class CallMixin:
             return [(st, r)]
         if name == "at_return":
             fin = st.ghost.get("final_store")
+            if fin is None and st.ghost.get("callee_locals") is not None and isinstance(e.args[0], ast.Name):
+                # the contract of a CALLEE: the caller only knows that the local had SOME value at the return point -
+                # one fresh constant per local (of its declared type), shared by all clauses of this call
+                cl = st.ghost["callee_locals"]
+                nm = e.args[0].id
+                if nm not in cl["vals"]:
+                    t = cl["types"].get(nm)
+                    if t is None:
+                        raise EngineError(f"at_return({nm}) in a callee contract: declare the local's type in types=")
+                    cl["vals"][nm] = sym.fresh(t, f"ret.{nm}")
+                return [(st, cl["vals"][nm])]
             if fin is None:
                 raise EngineError("at_return() outside a postcondition")
             s = st.copy()
@@ -866,6 +898,20 @@ def st_module_of(engine, key):
         return loader.load(key.split(":")[0], engine.repo)
     except (FileNotFoundError, OSError):
         return None  # pseudo-class of an external library (fields declared in the contracts only)
+
+
+def _node_kinds(t):
+    """['document', 'section'] for `nodes.document | nodes.section`, `(nodes.document, nodes.section)` or `nodes.document`;
+    None for anything else (only concrete, lower-case docutils node classes: the model has no class hierarchy)."""
+    if isinstance(t, ast.Attribute) and isinstance(t.value, ast.Name) and t.value.id == "nodes" and t.attr[:1].islower():
+        return [t.attr]
+    if isinstance(t, ast.BinOp) and isinstance(t.op, ast.BitOr):
+        a, b = _node_kinds(t.left), _node_kinds(t.right)
+        return a + b if a and b else None
+    if isinstance(t, ast.Tuple) and t.elts:
+        parts = [_node_kinds(x) for x in t.elts]
+        return [k for p in parts for k in p] if all(parts) else None
+    return None
 
 
 def _is_doc(s):
